@@ -113,12 +113,20 @@ class PF:                 # inferable class whose instances can be falsy (like a
 
 @symbol
 @dataclass(eq=False)
+class PD:                 # inferable class with a non-None default: a field given as None must stay None
+    a: Any = None
+    b: Any = None
+    c: Any = "c"
+
+
+@symbol
+@dataclass(eq=False)
 class R:                  # second inferable class
     a: Any = None
     b: Any = None
 
 
-CLASSES = {c.__name__: c for c in (A, B, Base, Mid, Leaf, Other, P, PF, R)}
+CLASSES = {c.__name__: c for c in (A, B, Base, Mid, Leaf, Other, P, PF, PD, R)}
 
 
 class Boom(Exception):
